@@ -8,7 +8,8 @@ import subprocess
 import sys
 
 V = "/verif"
-EXTRA = {"C01-1": ["C14", "C07"], "C14-2": ["C07"], "C10-1": ["C08"], "C10-2": ["C09"], "C16-1": ["C06"], "C11-2": ["C12", "C13"], "C12-1": ["C13"], "C13-1": ["C12"]}
+EXTRA = {"C01-3": ["C02", "C14"], "C02-3": ["C01", "C14"], "C14-3": ["C02"], "C18-3": ["C14"], "C10-3": ["C08"], "C03-3": ["C02"], "C16-3": ["C06"], "C09-3": ["C10"],
+         "C01-1": ["C14", "C07"], "C14-2": ["C07"], "C10-1": ["C08"], "C10-2": ["C09"], "C16-1": ["C06"], "C11-2": ["C12", "C13"], "C12-1": ["C13"], "C13-1": ["C12"]}
 
 
 def sh(cmd, **kw):
